@@ -704,7 +704,7 @@ func abandonPhase(cfg *config.Config) {
 			relicx.Use(cfg)
 			v0 := run.NumViolations()
 			extBlocks := 0
-			st := mc.Explore(mc.Options{MaxDeviations: bound, Stop: func() bool { return run.NumViolations() > v0 }}, func(c *mc.Ctx) {
+			st := mc.Explore(mc.Options{MaxDeviations: bound, RetryDivergence: 6, Stop: func() bool { return run.NumViolations() > v0 }}, func(c *mc.Ctx) {
 				f, err := os.Open(path)
 				if err != nil {
 					panic(err)
@@ -783,7 +783,10 @@ func abandonPhase(cfg *config.Config) {
 			})
 			run.AddStates(st.Executions)
 			run.AddTransitions(st.ChoicePoints)
-			run.Set(fmt.Sprintf("abandoned_attempt_schedules:%s:cut=%d", map[string]string{"": "identity"}[enc]+enc, cut), map[string]any{"executions": st.Executions, "preemption_bound": bound, "threads_found_parked_outside_scheduler": extBlocks})
+			run.Set(fmt.Sprintf("abandoned_attempt_schedules:%s:cut=%d", map[string]string{"": "identity"}[enc]+enc, cut), map[string]any{"executions": st.Executions, "preemption_bound": bound, "threads_found_parked_outside_scheduler": extBlocks, "executions_rerun_after_divergence": st.Retried, "prefixes_skipped_as_not_replayable": st.Diverged})
+			if st.Diverged > 0 {
+				run.Capped(fmt.Sprintf("abandoned-attempt exploration for %q cut=%d: %d schedule prefix(es) could not be replayed in 7 attempts (the abandoned compressor goroutine is followed through runtime.Stack, not owned) and were skipped with their subtrees", enc, cut, st.Diverged))
+			}
 			if st.Capped {
 				run.Capped(fmt.Sprintf("abandoned-attempt exploration for %q cut=%d stopped at its first violation", enc, cut))
 			}
@@ -813,7 +816,7 @@ func main() {
 	abandonPhase(cfg)
 	optionsPhase()
 	resignPhase(cfg)
-	run.Rule("(a) the client-side transform of 22 upload streams (every signer type, PGP in three modes) read three times; (b) each stream x every read-size schedule: constant sizes {1,2,7,511,512,513,4095,4096,4097,65535,65536,65537,2^20-1,2^20,2^20+1,unbounded}, ordered pairs as 2-cycles (quick: 7-value sub-ladder; thorough: full ladder), one short read (1 byte; one byte under the copy buffer) at every read index of the default schedule (capped at 80 indices) - the real server-side Sign, then Apply, Fixup and relic verify with integrity on; (c)+(d) every sequence of per-attempt outcomes {ok, 503, 500, 406, refused, 403} through the real client doRequest loop for accept-encodings {none, gzip, snappy, both, unknown} x 1-3 servers x retries {1,3}; (e) an upload attempt cut short by the server after {0,1,10} bytes (503, request body closed by the transport) followed by a second attempt from the same Transformer, for gzip / snappy / identity: the abandoned attempt's compressor goroutine is adopted by the cooperative scheduler at its first read of the shared file, every interleaving of file seek/read operations of the two attempts up to 1 (thorough 2) preemptions, threads parked in the pipe followed by the scheduler's monitor; (f) the options channel: every signer module x every single option and every pair of options, each explicitly set to every value of {true,false} / {plain, reserved characters, empty}: command line -> FlagsFromCmdline -> ToQuery -> encoded query -> FlagsFromQuery, every option read on both sides; (g) {pe, ps1, cab, msi, dmg, mach-o} x {unsigned, signed before with a ten-certificate chain and SHA-512, with page hashes, with a P-256 key}: the server's result applied over the input and into a new file, both results compared and verified. distinct_nontrivial = (stream,schedule) pairs + failover histories with >=2 attempts")
+	run.Rule("(a) the client-side transform of 22 upload streams (every signer type, PGP in three modes) read three times; (b) each stream x every read-size schedule: constant sizes {1,2,7,511,512,513,4095,4096,4097,65535,65536,65537,2^20-1,2^20,2^20+1,unbounded}, ordered pairs as 2-cycles (quick: 7-value sub-ladder; thorough: full ladder), one short read (1 byte; one byte under the copy buffer) at every read index of the default schedule (capped at 80 indices) - the real server-side Sign, then Apply, Fixup and relic verify with integrity on; (c)+(d) every sequence of per-attempt outcomes {ok, 503, 500, 406, refused, 403} through the real client doRequest loop for accept-encodings {none, gzip, snappy, both, unknown} x 1-3 servers x retries {1,3}; (e) an upload attempt cut short by the server after {0,1,10} bytes (503, request body closed by the transport) followed by a second attempt from the same Transformer, for gzip / snappy / identity: the abandoned attempt's compressor goroutine is adopted by the cooperative scheduler at its first read of the shared file, every interleaving of file seek/read operations of the two attempts up to 1 (thorough 2) preemptions, threads parked in the pipe followed by the scheduler's monitor; (f) the options channel: every signer module x every single option and every pair of options, each explicitly set to every value of {true,false} / {plain, reserved characters, empty}: command line -> FlagsFromCmdline -> ToQuery -> encoded query -> FlagsFromQuery, every option read on both sides; (g) {pe, ps1, cab, msi, dmg, mach-o, xap, jar, apk, vsix, appx} x {unsigned, signed before with a ten-certificate chain and SHA-512, with page hashes, with a P-256 key}: the server's result applied over the input and into a new file, both results compared and verified. distinct_nontrivial = (stream,schedule) pairs + failover histories with >=2 attempts")
 	run.Assume("'the same content digest' is decided by relic's verifier accepting the patched file with integrity checking on (the digest the verifier recomputes is a function of the file alone), since signatures embed the signing time and cannot be compared byte-wise")
 	run.Assume("request bodies are compared after decoding with relic's own compresshttp middleware")
 	run.Finish()
